@@ -139,6 +139,10 @@ fn run_history(
                     rep.bump("fault.sink.hard", 1);
                 }
                 let want = expect(c)?;
+                if got.is_budget() || want.is_budget() {
+                    rep.bump("discarded_budget", 1);
+                    return Ok(None);
+                }
                 if let Outcome::Panic(m) = &got {
                     if !want.is_panic() {
                         return Ok(Some((i, "I3-panic".into(), format!("call #{i} {} panicked: {m}", c.show()))));
